@@ -36,11 +36,18 @@ func newCrashRun(seed uint64, cfg CrashCfg, tag string) *CrashRun {
 func runCrashSim(run int, seed uint64) RunReport {
 	rep := RunReport{Stats: map[string]int{}}
 	wr := newRng(simrt.Mix(seed, 1))
-	cfg := genCrashCfg(wr, flTier)
+	cfg := genCrashCfg(wr, flTier, flProp)
 	if flProp == "C20" {
 		cfg.Nested = 1
 		if flTier == "thorough" {
 			cfg.Nested = 2 + wr.Intn(2)
+		}
+	} else if flProp == "C10" {
+		// table identity across crash restarts: plain crash points (and torn log tails), no nesting
+		cfg.Nested = 0
+		cfg.TornPages = false
+		if cfg.NOps > 20 {
+			cfg.NOps = 20
 		}
 	} else if wr.Chance(0.2) {
 		cfg.Nested = 1
